@@ -27,7 +27,7 @@ def main(tier, replay, t0):
         g = c.gen[x["id"]]
         if g.get("result") != "ok":
             continue
-        base = {"wgsl": c.wgsl, "options": x["opt"]}
+        base = {"case_id": c.id, "wgsl": c.wgsl, "options": x["opt"]}
         p = c.truth["push"]
         inv = g.get("inv", {})
         has_const = any(k["name"] == "PUSH_CONSTANT_STAGES" for k in inv.get("consts", []))
